@@ -51,6 +51,12 @@ class Exact:
 
     def guards(self, b, bi):
         L = self.ALL
+        # every test that dominates the site narrows the set of texts on which it is reached: one the evaluator cannot express as a
+        # regular predicate of the text would make the computed language too large (the conversion would look exact while it refuses more)
+        n_dom = len(mir.guards(b, bi))
+        n_known = len(sites.guard_predicates(self.ctx, b, bi))
+        if n_dom > n_known:
+            raise Undetermined(f'the site is also guarded by {n_dom - n_known} test(s) that are not a known predicate of the text (known: has-scheme and the like)')
         for (name, pol, _root) in sites.lifted_guards(self.ctx, b, bi):
             g = lang.predicate_dfa(name, False)
             L = intersect(L, g) if pol else difference(L, g)
